@@ -1,3 +1,118 @@
-/-  C14/Theorems — the ledger for property C14 (every theorem here is audited).  Placeholder. -/
+/-
+  C14/Theorems — the ledger for property C14, static part: the hand-written model of otto's generator input
+  (Model.lean) against the hand-written ES5 §15 table (Spec.lean).  The theorems over the REGENERATED dumps of
+  the running runtimes are in Regen<Cfg>.lean / RegenAll.lean (also ledger modules, also audited); they reduce
+  to the statements here by rewriting with `dump = model` (closed by `decide`).
+  Every `theorem` is audited (`#print axioms` ⊆ {propext, Classical.choice, Quot.sound}) on every run.
+-/
+import OttoVerif.C14.Model
 namespace OttoVerif.C14.Thm
+open OttoVerif.C14
+open OttoVerif.C14.Spec (Owner Slot Props Facts Dump)
+
+/-! ### model = spec outside the deviation regions (finite table, decided completely) -/
+
+set_option maxRecDepth 1000000 in
+/-- every (owner, property) of ES5 §15.1–15.12 + Annex B outside the four entry regions has, in otto's
+    generator input, exactly the specified kind, function length, [[Class]], links and attributes -/
+theorem model_matches_spec :
+    ∀ e ∈ Spec.entries, Model.devEntry e.1 e.2.1 = "-" → Spec.lookup Model.table e.1 e.2.1 = some e.2.2 := by
+  decide +kernel
+
+set_option maxRecDepth 1000000 in
+/-- object-level facts: typeof, [[Class]], [[Prototype]], extensibility, [[PrimitiveValue]] of wrapper prototypes -/
+theorem owners_match_spec :
+    ∀ of ∈ Spec.owners, ∀ ft ∈ of.2, Model.devOwn of.1 ft.1 = "-" → Spec.lookup Model.ownerFacts of.1 ft.1 = some ft.2 := by
+  decide +kernel
+
+set_option maxRecDepth 100000 in
+theorem forin_matches_spec :
+    ∀ kv ∈ Spec.forIn, Model.devForIn kv.1 = "-" → Spec.assoc kv.1 Model.forIn = some kv.2 := by
+  decide +kernel
+
+theorem links_match_spec : Model.links = Spec.links := rfl
+
+set_option maxRecDepth 1000000 in
+/-- the deviation regions are tight: at every listed (owner, property) inside a region the model differs from ES5 -/
+theorem entry_regions_tight :
+    ∀ e ∈ Spec.entries, Model.devEntry e.1 e.2.1 ≠ "-" → Spec.lookup Model.table e.1 e.2.1 ≠ some e.2.2 := by
+  decide +kernel
+
+set_option maxRecDepth 1000000 in
+theorem owner_regions_tight :
+    ∀ of ∈ Spec.owners, ∀ ft ∈ of.2, Model.devOwn of.1 ft.1 ≠ "-" → Spec.lookup Model.ownerFacts of.1 ft.1 ≠ some ft.2 := by
+  decide +kernel
+
+/-! ### for-in never shows a built-in: every slot otto creates (ES5 ones *and* otto's extras) is non-enumerable,
+    with the single exception `console` on the global object (otto.go:247) -/
+set_option maxRecDepth 1000000 in
+theorem model_no_enumerable_builtin :
+    ∀ e ∈ Spec.flatten Model.table, e.2.2.attrs.e = true → e.1 = Owner.global ∧ e.2.1 = "console" := by
+  decide +kernel
+
+/-- transfer to any table equal to the model (used with the regenerated dumps) -/
+theorem no_enumerable_of_eq (t : List (Owner × Props)) (h : t = Model.table) :
+    ∀ e ∈ Spec.flatten t, e.2.2.attrs.e = true → e.1 = Owner.global ∧ e.2.1 = "console" := by
+  subst h; exact model_no_enumerable_builtin
+
+theorem matches_spec_of_eq (t : List (Owner × Props)) (h : t = Model.table) :
+    ∀ e ∈ Spec.entries, Model.devEntry e.1 e.2.1 = "-" → Spec.lookup t e.1 e.2.1 = some e.2.2 := by
+  subst h; exact model_matches_spec
+
+/-! ### every function slot the templates emit is a well-formed ES5 built-in function object (all declarations, by cases) -/
+
+/-- function.tmpl, for ANY yaml item: `length` is {W:false,E:false,C:false}, [[Class]] Function, [[Prototype]]
+    Function.prototype, extensible, no own `prototype`, not a constructor, no enumerable own property; the slot
+    itself is {W:true,E:false,C:true}; and `function: -1` means length 0. -/
+theorem fn_slot_wellformed (d : Model.Decl) (s : Spec.FnShape) (h : d.slot.val = .fn s) :
+    s.lenAttrs = Spec.ro ∧ s.cls = .Function ∧ s.proto = .FunctionPrototype ∧ s.ext = true ∧
+    s.hasPrototype = false ∧ s.newOK = false ∧ s.enumOwn = 0 ∧ d.slot.attrs = Spec.wc := by
+  cases d <;> simp [Model.Decl.slot, Model.fnValue] at h <;> subst h <;>
+    simp [Model.attrs, Spec.ro, Spec.wc, Model.Decl.slot]
+
+theorem fn_len (n : String) (len : Int) :
+    (Model.Decl.fn n len).slot = Spec.fn (if len = -1 then 0 else len.toNat) := by
+  simp [Model.Decl.slot, Model.fnValue, Model.fnLen, Spec.fn, Spec.fnShape, Model.attrs, Spec.ro, Spec.wc]
+
+/-- a value/link item gets exactly the attributes of its octal mode (property.go:10-17), for every mode -/
+theorem mode_attrs (w e c : Bool) :
+    Model.attrs ((if w then 64 else 0) + (if e then 8 else 0) + (if c then 1 else 0)) = ⟨w, e, c⟩ := by
+  cases w <;> cases e <;> cases c <;> decide
+
+/-! ### wiring: which Go function a slot is bound to follows the naming convention builtin<Type><Name>, except for
+    the listed `call:` overrides -/
+set_option maxRecDepth 100000 in
+theorem call_overrides :
+    (Model.types.flatMap (fun t => (t.props ++ t.protoProps).filterMap (fun d =>
+        match d with | .fnCall n _ c => some (t.name, n, c) | _ => none))) =
+    [("EvalError", "toString", "ErrorToString"), ("TypeError", "toString", "ErrorToString"), ("RangeError", "toString", "ErrorToString"),
+     ("ReferenceError", "toString", "ErrorToString"), ("SyntaxError", "toString", "ErrorToString"), ("URIError", "toString", "ErrorToString")] := by
+  decide +kernel
+
+/-- no two slots of one owner share a name (so `lookup` is the whole story), for the model and the spec -/
+def noDupKeys {α : Type} (ps : List (String × α)) : Bool :=
+  match ps with
+  | [] => true
+  | (k, _) :: r => !(r.any (fun q => q.1 = k)) && noDupKeys r
+
+set_option maxRecDepth 1000000 in
+theorem model_keys_unique : ∀ op ∈ Model.table, noDupKeys op.2 = true := by decide +kernel
+set_option maxRecDepth 1000000 in
+theorem spec_keys_unique : ∀ op ∈ Spec.table, noDupKeys op.2 = true := by decide +kernel
+
+/-! ### witnesses: the unchanged tree really deviates inside each region (kernel-checked; replayed on the real code
+    by the requests `entry fresh Math atan2`, … – see known_findings.jsonl) -/
+example : Spec.lookup Model.table .Math "atan2" = some (Spec.fn 1) ∧ Spec.lookup Spec.table .Math "atan2" = some (Spec.fn 2) := by decide
+example : Spec.lookup Model.table .NumberPrototype "toString" = some (Spec.fn 0) ∧ Spec.lookup Spec.table .NumberPrototype "toString" = some (Spec.fn 1) := by decide
+example : Spec.lookup Model.table .NumberPrototype "toLocaleString" = some (Spec.fn 1) ∧ Spec.lookup Spec.table .NumberPrototype "toLocaleString" = some (Spec.fn 0) := by decide
+example : Spec.lookup Model.table .RegExpPrototype "lastIndex" = none ∧ (Spec.lookup Spec.table .RegExpPrototype "lastIndex").isSome := by decide
+example : Spec.lookup Model.ownerFacts .DatePrototype "prim" = some "num:0000000000000000" ∧ Spec.lookup Spec.owners .DatePrototype "prim" = some "num:7ff8000000000001" := by decide
+example : Spec.lookup Model.ownerFacts .TypeErrorPrototype "class" = some "TypeError" ∧ Spec.lookup Spec.owners .TypeErrorPrototype "class" = some "Error" := by decide
+example : Spec.lookup Model.table .global "console" = some ⟨.obj .Object, ⟨true, true, true⟩⟩ ∧ Spec.lookup Spec.table .global "console" = none := by decide
+example : Spec.assoc "error" Model.forIn = some "message,name" ∧ Spec.assoc "error" Spec.forIn = some "-" := by decide
+-- non-vacuity: the entry regions cover 8 of the 258 ES5 slots; the model has 281 slots (23 are otto's extras)
+set_option maxRecDepth 1000000 in
+example : (Spec.entries.filter (fun e => Model.devEntry e.1 e.2.1 != "-")).length = 8 ∧ Spec.entries.length = 258 ∧
+    (Spec.flatten Model.table).length = 281 := by decide +kernel
+
 end OttoVerif.C14.Thm
